@@ -377,7 +377,8 @@ func TestC12(t *testing.T) {
 				fault = rapid.IntRange(0, len(c12Faults)-1).Draw(rt, "fault")
 			}
 			src := g.program(rapid.IntRange(3, 30).Draw(rt, "actions"), fault)
-			c.c12Program(s, "rand-histories", src, g.nt)
+			pl := drawPlacement(rt)
+			c.c12Program(s, "rand-histories", place(src, pl), g.nt, "placed-"+placementNames[pl])
 		})
 	})
 }
